@@ -258,4 +258,111 @@ let run (toks : string list) : string =
              go (init0 npn pp0 !cprog) 0 tr)
   | _ -> failwith "bad case"
 
-let () = main run
+(* ---------------------------------------------------------------- D3 skeleton table *)
+(* For every modelled Rust function: the model pcs that implement its facade operations, in the
+   source order of the function body (calls to other modelled functions appear as `call`).  The
+   (var, op, Ordering) of a PRow / CRow is NOT written here: it is read off the extracted step
+   function by executing the pc.  `Lit` rows are facade operations of a modelled function that lie
+   on a path outside the model's scope (waiter hand-off when a thread is parked, async wakers):
+   they are kept verbatim so that any edit of the function's skeleton is still reported. *)
+type row = PRow of ppc_t | CRow of cpc_t | Call of string | Lit of string
+
+let skel_var = function VId _ -> "id" | VState _ -> "state" | v -> show_var v
+
+let ev_of_row (r : row) : string =
+  let cap = n 2 and cc = n 4 and nn = n 3 and kk = n 1 in
+  let show (e : event0) =
+    if e.ek = KCas then Printf.sprintf "%s.cas.%s/%s" (skel_var e.evr) (show_ord e.eo) (show_ord e.eof)
+    else if e.ek = KLock then Printf.sprintf "%s.lock.-" (skel_var e.evr)
+    else if e.ek = KFence then Printf.sprintf "-.fence.%s" (show_ord e.eo)
+    else if e.ek = KSpin then "-.spin.-"
+    else Printf.sprintf "%s.%s.%s" (skel_var e.evr) (show_kind e.ek) (show_ord e.eo)
+  in
+  let base = init0 (nat_of_int 1) (fun _ -> [ op_any ]) [ op_any ] in
+  match r with
+  | Call f -> "call." ^ f
+  | Lit s -> s
+  | PRow pc -> (
+      match step0 cap cc nn kk (nat_of_int 1) { base with ppc = (fun _ -> pc) } (TP (nat_of_int 0)) with
+      | Some (_, e) -> show e
+      | None -> "DISABLED")
+  | CRow pc -> (
+      match step0 cap cc nn kk (nat_of_int 1) { base with cpc = pc } TC with
+      | Some (_, e) -> show e
+      | None -> "DISABLED")
+
+let t0 = n 0
+
+let skeleton : (string * row list) list =
+  [ ("shared.rs::Shared::credit_ok", [ PRow (PS4 (XHot, t0)) ]);
+    ("shared.rs::Shared::window_open", [ PRow (PS1 XHot); PRow (PS2 (XHot, t0)) ]);
+    ("shared.rs::Shared::credit_ok_cold", [ PRow (PS4 (XCold, t0)) ]);
+    ("shared.rs::Shared::window_open_cold", [ PRow (PS1 XCold); PRow (PS2 (XCold, t0)) ]);
+    ("shared.rs::Shared::try_send_now",
+     [ Call "window_open"; PRow (PS3 XHot); Call "credit_ok"; Call "write_slot"; Call "write_slot" ]);
+    ("shared.rs::Shared::try_send_now_cold",
+     [ Call "window_open_cold"; PRow (PS3 XCold); Call "credit_ok_cold"; Call "write_slot"; Call "write_slot" ]);
+    ("shared.rs::Shared::ensure_resident",
+     [ PRow (PE1 (XHot, t0, true)); PRow (PE2 (XHot, t0, true, t0)); PRow (PEs (XHot, t0, true, t0));
+       PRow (PE3 (XHot, t0, true, t0)) ]);
+    ("shared.rs::Shared::write_slot",
+     [ Call "ensure_resident"; PRow (PW1 (XHot, t0, true)); PRow (PW1 (XHot, t0, false)); Call "notify_receiver" ]);
+    ("shared.rs::Shared::notify_receiver",
+     [ PRow (PN1 (XHot, t0, true)); PRow (PN2 (XHot, t0, true)); Lit "sync_recv_waiter.lock.-";
+       Lit "sync_recv_waiter_count.store.Rel"; Lit "notified.store.Rel"; Lit "-.unpark.-";
+       PRow (PN3 (XHot, t0, true)); Lit "async_recv_waiter.lock.-"; Lit "async_recv_waiter_count.store.Rel"; Call "wake" ]);
+    ("shared.rs::Shared::deq_once",
+     [ CRow (CLock DTry1); CRow (CD1 DTry1); CRow (CM1 DTry1); CRow (CM2 DTry1); CRow (CD2 DTry1); CRow (CD3 DTry1);
+       CRow (CD5 (DTry1, true)); Call "publish_progress"; CRow (CD6 DTry1); CRow (CD5 (DTry1, false));
+       Call "publish_progress"; CRow (CM1 DTry1); CRow (CM2 DTry1) ]);
+    ("shared.rs::Shared::publish_progress",
+     [ CRow (CP1 (UbFlush FEmpty)); CRow (CP2 (UbFlush FEmpty)); Call "notify_senders" ]);
+    ("shared.rs::Shared::notify_senders",
+     [ CRow (CP3 (UbFlush FEmpty)); CRow (CP4 (UbFlush FEmpty)); Lit "sync_send_waiters.lock.-"; Lit "notified.store.Rel";
+       Lit "sync_send_waiter_count.store.Rel"; Lit "-.unpark.-"; CRow (CP5 (UbFlush FEmpty));
+       Lit "async_send_waiters.lock.-"; Lit "async_send_waiter_count.store.Rel"; Call "wake" ]);
+    ("shared.rs::Shared::flush_progress", [ CRow (CFl FEmpty); Call "publish_progress" ]);
+    ("shared.rs::Shared::drain_straggler", [ Call "deq_once" ]);
+    ("shared.rs::Shared::senders_alive", [ CRow CSa ]);
+    ("shared.rs::Shared::receivers_alive", [ PRow PRd ]);
+    ("shared.rs::Shared::drop_sender", [ PRow PDropSub; Call "wake_all_receivers" ]);
+    ("shared.rs::Shared::drop_receiver", [ CRow CDropSt; Call "wake_all_senders" ]);
+    ("shared.rs::Shared::wake_all_receivers",
+     [ PRow (PWk W4L1); Lit "sync_recv_waiter_count.store.Rel"; Lit "notified.store.Rel"; Lit "-.unpark.-";
+       PRow (PWk W4L2); Lit "async_recv_waiter_count.store.Rel"; Call "wake" ]);
+    ("shared.rs::Shared::wake_all_senders",
+     [ CRow (CWk W6L1); Lit "notified.store.Rel"; CRow (CWk W6S1); CRow (CWk W6L2); CRow (CWk W6S2); Lit "-.unpark.-";
+       Call "wake" ]);
+    ("producer.rs::Sender::try_send",
+     [ PRow PIdle; Call "receivers_alive"; Call "try_send_now"; Call "try_send_now_cold" ]);
+    ("producer.rs::Sender::close", [ Lit "DROP-P"; Call "drop_sender" ]);
+    ("producer.rs::Sender::drop", [ Call "close" ]);
+    ("consumer.rs::Receiver::try_recv",
+     [ CRow CIdle; Call "deq_once"; Call "senders_alive"; Call "drain_straggler"; Call "flush_progress";
+       Call "flush_progress" ]);
+    ("consumer.rs::Receiver::close", [ Lit "DROP-C"; Call "drop_receiver" ]);
+    ("consumer.rs::Receiver::drop", [ Call "close" ]) ]
+
+(* the Drop rows run with an empty program *)
+let drop_row (tid : tid0) : string =
+  let base = init0 (nat_of_int 1) (fun _ -> []) [] in
+  match step0 (n 2) (n 4) (n 3) (n 1) (nat_of_int 1) base tid with
+  | Some (_, e) -> Printf.sprintf "%s.cas.%s/%s" (skel_var e.evr) (show_ord e.eo) (show_ord e.eof)
+  | None -> "DISABLED"
+
+let skel_line (f : string) : string =
+  match List.assoc_opt f skeleton with
+  | Some rows ->
+      let one = function
+        | Lit "DROP-P" -> drop_row (TP (nat_of_int 0))
+        | Lit "DROP-C" -> drop_row TC
+        | r -> ev_of_row r
+      in
+      Printf.sprintf "skel %s :: %s" f (String.concat " ; " (List.map one rows))
+  | None -> Printf.sprintf "skel %s :: <not modelled>" f
+
+let () = skel_line_ref := skel_line
+
+let print_skeleton () = List.iter (fun (f, _) -> print_endline (skel_line f)) skeleton
+
+let () = if Array.length Sys.argv > 1 && Sys.argv.(1) = "--skeleton" then print_skeleton () else main run
